@@ -8,9 +8,9 @@ LB = "internal/loadbalancer"
 RL = "internal/ratelimiter"
 
 ENGINES = [
-    dict(name="S", path="engine/shim/vrt", serves_properties=["C02", "C04", "C05", "C06", "C07", "C08", "C09", "C11", "C13"],
+    dict(name="S", path="engine/shim/vrt", serves_properties=["C02", "C04", "C05", "C06", "C07", "C08", "C09", "C11", "C13", "C19"],
          kind_free_text="controlled cooperative scheduler + stateless replay DFS with preemption bounding over the real Helios code (sync/atomic/time/go/select rewritten onto shims by vgen)"),
-    dict(name="H", path="engine/shim/vh/hrun.go", serves_properties=["C02", "C04", "C05", "C06", "C07", "C08", "C09", "C11", "C13"],
+    dict(name="H", path="engine/shim/vh/hrun.go", serves_properties=["C02", "C04", "C05", "C06", "C07", "C08", "C09", "C11", "C13", "C19"],
          kind_free_text="explicit-state breadth-first search over event histories of the real objects under a virtual clock, reflective state fingerprint for deduplication, reference-model / monitor oracle on every transition"),
 ]
 
@@ -123,6 +123,17 @@ CHECKS = {
         jobs=[
             dict(name="c13h", part="H", pkg=LB, run="TestVerifC13H", mode="instr", shards=dict(quick=8, thorough=16), timeout=dict(quick=600, thorough=3000)),
             dict(name="c13s", part="S", pkg=LB, run="TestVerifC13S", mode="instr", shards=dict(quick=4, thorough=8), timeout=dict(quick=600, thorough=3000)),
+        ],
+        assumptions=[],
+    ),
+    "C19": dict(
+        level="model_checking",
+        engine="S",
+        technique="exhaustive preemption-bounded schedule exploration of Stop against the real health-check loop, ticker firings, probe goroutines and a client request (deadlock / panic / late-probe verdicts)",
+        text="The real NewLoadBalancer with active checks on runs its health-check goroutine, ticker, select and probe goroutines under the controlled scheduler; ticker firings (0-2), one or two Stop callers and a client request are explored under all interleavings up to the preemption bound. Verdicts: deadlock (Stop never returns), any panic (both WaitGroup misuse panics are modelled), a probe sent after the last Stop returned, pooled connections left open, a further Stop or a late tick having any effect.",
+        note="A probe counts as sent when the scripted transport is entered with a live context (it re-checks the context after its in-flight scheduling point); the process-level clauses (signals, shutdown timeout) belong to the engine-P part.",
+        jobs=[
+            dict(name="c19s", part="S", pkg=LB, run="TestVerifC19", mode="instr", shards=dict(quick=16, thorough=16), timeout=dict(quick=900, thorough=3400)),
         ],
         assumptions=[],
     ),
